@@ -107,7 +107,12 @@ def run(prog, chk):
         ok = len(unp) == 1 and unparse(unp[0].targets[0].elts[0]) == keyv
         dv = unparse(st.value)
         dd = [s for s in walk_no_defs(ar.node) if isinstance(s, ast.Assign) and unparse(s.targets[0]) == dv]
-        ok = ok and len(dd) == 1 and unparse(dd[0].value) == "%s.get_string()" % mp
+        srcs = sorted(unparse(x.value) for x in dd)
+        ok = ok and srcs in (["%s.get_string()" % mp], ["None", "%s.get_string()" % mp])
+        if ok and "None" in srcs:
+            # a reply without data stores nothing: the store is under `data is not None`
+            stn = [n for n in far.cfg.nodes_for(st) if n.id in far.live]
+            ok = bool(stn) and far.dominated(stn, guard_edge=far.edge_guard(lambda q: unparse(q) == "%s is not None" % dv, "T"))
         dels = [s for s in walk_no_defs(ar.node) if isinstance(s, ast.Delete) and unparse(s.targets[0]) == "self._prefetch_extents[%s]" % np_]
         ok = ok and len(dels) == 1
         for s in (st, unp[0] if unp else None, dels[0] if dels else None):
@@ -123,16 +128,23 @@ def run(prog, chk):
             ok = ok and locked
         detail = "_prefetch_data[%s] = %s with (%s, _) = _prefetch_extents[%s]; registration deleted; all under _prefetch_lock" % (keyv, dv, keyv, np_)
     chk.ob("R3.data-stored-under-registered-offset", "_async_response", ok, ar.loc, detail)
+    # whatever the reply type, the request is unregistered: a registration that is never removed keeps the prefetch
+    # "in flight" for ever (the concurrency cap never frees a slot, _prefetch_done never becomes true)
+    deln = [n for n in far.nodes(lambda n: n.kind == "stmt" and isinstance(n.ast, ast.Delete) and unparse(n.ast.targets[0]) == "self._prefetch_extents[%s]" % np_)]
+    okd = bool(deln) and far.exit_dominated(guard_nodes=deln)
+    chk.ob("R3.every-reply-unregisters-its-request", "_async_response", okd, ar.loc,
+           "every normal exit of _async_response has removed _prefetch_extents[%s]%s" % (np_, "" if okd else
+           " - not so: " + far.witness([far.cfg.exit.id], guard_nodes=deln)))
     conv = [c for c in walk_no_defs(ar.node) if M.is_call(c, name="self.sftp._convert_status")]
     okc = len(conv) == 1
     if okc:
-        t = conv[0]
-        while t is not None and not isinstance(t, ast.Try):
-            t = getattr(t, "_parent", None)
-        okc = t is not None and any(unparse(s) == "self._saved_exception = %s" % h.name for h in t.handlers for s in h.body)
+        from ._shared import async_status_discipline
+        d = async_status_discipline(prog)
+        okc = d["ok_saved"] and set(d["absorbed"]) <= {"EOFError"} and (not d["absorbed"] or d["unregisters"])
         g = far.edge_guard(lambda q: unparse(q) == "%s == CMD_STATUS" % tp, "T")
         okc = okc and far.dominated([n for n in far.cfg.node_containing(conv[0]) if n.id in far.live], guard_edge=g)
-    chk.ob("R3.status-converted-and-saved", "_async_response", okc, ar.loc, "a STATUS reply is converted by _convert_status and the error kept for _check_exception")
+    chk.ob("R3.status-converted-and-saved", "_async_response", okc, ar.loc,
+           "a STATUS reply is converted by _convert_status and the error kept for _check_exception (end-of-file may be left to the fall-back read)")
     raises = [r for r in walk_no_defs(ar.node) if isinstance(r, ast.Raise)]
     okr = len(raises) == 1 and isinstance(raises[0]._parent, ast.If) and unparse(raises[0]._parent.test) == "%s != CMD_DATA" % tp
     chk.ob("R3.other-reply-types-raise", "_async_response", okr, ar.loc, "anything but DATA (after STATUS was handled) raises")
